@@ -225,4 +225,28 @@ Proof.
   unfold Sig.stream. repeat split; auto.
 Qed.
 
+(* ---- take(n) with a count that outlasts the run ----
+   the first m items of take(n), m <= n, are the first m frames of the signal WHATEVER n is; n - m are left and the
+   signal has been advanced exactly m times (c05_take is the case m = n) *)
+Notation collect_take := (Sig.collect_take F Sm SS FS eqm nch of_samples fmap f_add f_mul f_scale f_offset to_signed of_signed ss_ltb ss_neg).
+
+Theorem take_prefix : forall m n (s : sig), m <= n ->
+  collect_take m (n, s) = (map (stream s) (seq 0 m), (n - m, after m s)).
+Proof.
+  induction m as [|m IH]; intros n s Hn.
+  - cbn [Sig.collect_take seq map Sig.after]. now rewrite Nat.sub_0_r.
+  - cbn [Sig.collect_take]. unfold Sig.take_next. cbn [fst snd]. destruct n as [|n]; [lia|].
+    destruct (next s) as [x s'] eqn:E.
+    assert (Hs' : s' = step s) by (unfold SigProofs.step; now rewrite E).
+    rewrite (IH n s' ltac:(lia)). cbn [seq map Nat.sub]. f_equal.
+    + f_equal; [unfold Sig.stream; cbn [Sig.after]; now rewrite E|].
+      rewrite <- seq_shift, map_map. apply map_ext. intros i. unfold Sig.stream. rewrite (after_S F Sm SS FS). now rewrite Hs'.
+    + rewrite (after_S F Sm SS FS). now rewrite Hs'.
+Qed.
+
+Corollary take_beyond_run m n n' (s : sig) : m <= n -> m <= n' ->
+  fst (collect_take m (n, s)) = fst (collect_take m (n', s)) /\
+  snd (snd (collect_take m (n, s))) = snd (snd (collect_take m (n', s))).
+Proof. intros H H'. rewrite !take_prefix by assumption. split; reflexivity. Qed.
+
 End SigNorm.
